@@ -120,9 +120,9 @@ def gen_project(rng, idx):
     def process(gname, rel):
         return ('gen', dict(gens[gname], items=[rel]))
 
-    def build(var, kind, name, srcs, lw=(), lwh=(), deps=(), subdir=''):
+    def build(var, kind, name, srcs, lw=(), lwh=(), deps=(), subdir='', objects=()):
         spec.append(('build', var, {'subdir': subdir, 'kind': kind, 'name': name, 'srcs': list(srcs), 'lw': list(lw), 'lwh': list(lwh),
-                                    'deps': list(deps)}))
+                                    'deps': list(deps), 'objects': list(objects)}))
     # a generator that needs a generated data file (depends:), optionally with a depfile, and a
     # custom target with a depfile
     g2 = rng.random() < 0.6
@@ -277,6 +277,48 @@ def gen_project(rng, idx):
         if rng.random() < 0.6:
             mb.append("xi = custom_target('xi', input : xe, output : 'xi.dat', command : [gen, '@OUTPUT@', '@INPUT@'], build_by_default : true)")
             custom('xi', ['xi.dat'], [('target', 'xe')], [PROG, STR, STR])
+    # a third group: a static library W that is link_whole'd into intermediate static libraries (its
+    # objects are bundled into them) AND into the executable / shared library that links those, directly
+    # or through declare_dependency(link_whole:); diamonds; objects: extract_all_objects()
+    if rng.random() < 0.75:
+        files['w.c'] = 'int fw(void) { return 5; }\n'
+        mb.append("w = static_library('w', 'w.c')")
+        build('w', 'static_library', 'w', [('file', 'w.c')])
+        mb.append("w_dep = declare_dependency(link_whole : w)")
+        wdep = {'srcs': [], 'lw': [], 'lwh': ['w'], 'sub': []}
+
+        def whole(via_dep):
+            return (", dependencies : w_dep", {'deps': [wdep]}) if via_dep else (", link_whole : w", {'lwh': ['w']})
+        files['wa.c'] = 'int fw(void);\nint fwa(void) { return fw() + 1; }\n'
+        kw1, sp1 = whole(rng.random() < 0.5)
+        mb.append("wa = static_library('wa', 'wa.c'%s)" % kw1)
+        build('wa', 'static_library', 'wa', [('file', 'wa.c')], **sp1)
+        top = 'wa'
+        if rng.random() < 0.5:      # diamond: W reaches wa3 through wa and through wa2
+            files['wa2.c'] = 'int fw(void);\nint fwa2(void) { return fw() + 2; }\n'
+            kw2, sp2 = whole(rng.random() < 0.5)
+            mb.append("wa2 = static_library('wa2', 'wa2.c'%s)" % kw2)
+            build('wa2', 'static_library', 'wa2', [('file', 'wa2.c')], **sp2)
+            files['wa3.c'] = 'int fwa(void);\nint fwa2(void);\nint fwa3(void) { return fwa() + fwa2(); }\n'
+            mb.append("wa3 = static_library('wa3', 'wa3.c', link_whole : [wa, wa2])")
+            build('wa3', 'static_library', 'wa3', [('file', 'wa3.c')], lwh=['wa', 'wa2'])
+            top = 'wa3'
+        kwe, spe = whole(rng.random() < 0.5)
+        if rng.random() < 0.6:
+            files['we.c'] = 'int fw(void);\nint f%s(void);\nint main(void) { return fw() + f%s() == 0; }\n' % (top, top)
+            mb.append("we = executable('we', 'we.c', link_with : %s%s)" % (top, kwe))
+            build('we', 'executable', 'we', [('file', 'we.c')], lw=[top], **spe)
+        else:
+            files['we.c'] = 'int fw(void);\nint f%s(void);\nint fwe(void) { return fw() + f%s(); }\n' % (top, top)
+            mb.append("we = shared_library('we', 'we.c', link_with : %s%s)" % (top, kwe))
+            build('we', 'shared_library', 'we', [('file', 'we.c')], lw=[top], **spe)
+        if rng.random() < 0.5:
+            files['wo.c'] = 'int fw(void);\nint fwo(void) { return fw() + 3; }\n'
+            files['woe.c'] = 'int fwo(void);\nint main(void) { return fwo() == 0; }\n'
+            mb.append("wo = static_library('wo', 'wo.c', objects : %s.extract_all_objects(recursive : true))" % top)
+            build('wo', 'static_library', 'wo', [('file', 'wo.c')], objects=[top])
+            mb.append("woe = executable('woe', 'woe.c', link_with : wo)")
+            build('woe', 'executable', 'woe', [('file', 'woe.c')], lw=['wo'])
     files['meson.build'] = '\n'.join(mb) + '\n'
     return files, spec
 
@@ -768,8 +810,8 @@ def run(ctx):
                  'replay and by three adversarial schedules with digest comparison); compilers assumed deterministic'],
         assumptions=['Print Assumptions: C05 theorems closed under the global context',
                      'C05_generated_graph_*: for every project of the IR of Graph/Gen.v whose produced files have distinct names (valid_project), under '
-                     'the read assumption; projects outside the modelled fragment (other languages, install, objects:, extract_objects, link_whole '
-                     'into static libraries, custom-target indexes, generated lists as custom-target inputs, run targets) are only explored',
+                     'the read assumption; projects outside the modelled fragment (other languages, install, extract_objects of selected sources, '
+                     'custom-target indexes, generated lists as custom-target inputs, run targets) are only explored',
                      'the universal claim over projects is explored by the generator; the quantifier over schedules is discharged by the theorem for '
                      'every project whose observed graph passes the verified checker'],
         rule='generated C projects (generated headers, generators, custom-target chains, link_with/link_whole, declare_dependency(sources:), '
